@@ -321,6 +321,13 @@ def _analysis(indict, disable_stiffness_check: bool = False, disable_analytic_so
                             symbol_appears_in_any_expr = True
                             break
 
+                if "initial_values" in solver_json.keys():
+                    for sym, expr in solver_json["initial_values"].items():
+                        # initial values have already been converted to strings at this point
+                        if param_name in [str(sym) for sym in list(sympy.parsing.sympy_parser.parse_expr(expr, global_dict=Shape._sympy_globals).atoms())]:
+                            symbol_appears_in_any_expr = True
+                            break
+
                 if symbol_appears_in_any_expr:
                     solver_json["parameters"][param_name] = str(sympy.parsing.sympy_parser.parse_expr(param_expr, global_dict=Shape._sympy_globals).n())
 
